@@ -87,6 +87,13 @@ func init() {
 		n := x.freshVal(st, "read_n", intT)
 		x.te.SortOf(cc.Args[0].Type())
 		st.assume(And(Le(IntLit(0), n.T), Le(n.T, sliceLen(a[1].T))))
+		if a[1].Src != nil && a[1].T.Sort != "" {
+			// the reader fills the buffer: its contents are unknown afterwards
+			if srt, ok := sliceArrSort[a[1].T.Sort]; ok {
+				nb := mk(a[1].T.Sort, "mk_"+a[1].T.Sort, x.d.Fresh("readbuf", srt), sliceLen(a[1].T), sliceCap(a[1].T), sliceNil(a[1].T))
+				x.store(st, a[1].Src, Val{T: nb, Typ: a[1].Typ})
+			}
+		}
 		x.funcsUsed["lib:io.Reader/io.Closer (foreign objects: Read returns 0<=n<=len(buf); no effect on the verified packages' memory)"] = true
 		return Val{Tup: []Val{n, x.freshVal(st, "read_err", errT)}}, true
 	}
@@ -100,8 +107,36 @@ func init() {
 		// panics for an unavailable algorithm (callers establish validity of the digest); otherwise a fresh hash
 		h := x.freshVal(st, "hash", cc.Signature().Results().At(0).Type())
 		st.assume(Not(Eq(h.T, NilIface)))
+		if x.te.StrSort == "String" {
+			// a new hash object (fresh identity) that has absorbed nothing yet
+			ref := Term{fmt.Sprintf("(ival %s)", h.T.S), "Int"}
+			st.assume(Eq(ref, x.freshRef(st)))
+			gh := x.heapGet(st, "GH_hashed", "(Array Int String)")
+			st.heap["GH_hashed"] = Store(gh, ref, StrLit(""))
+		}
 		x.funcsUsed["lib:go-digest Algorithm.Hash returns a non-nil hash for a registered algorithm (panics otherwise: callers must pass validated digests)"] = true
 		return h, true
+	}
+	// hash.Hash: the ghost string hashed(h) is everything written so far
+	libTable["iface:hash.Hash.Write"] = func(x *Exec, fr *Frame, st *State, cc *ssa.CallCommon, a []Val) (Val, bool) {
+		if x.te.StrSort != "String" || x.te.ByteBV {
+			return Val{}, false
+		}
+		x.te.SortOf(cc.Args[0].Type())
+		ref := Term{fmt.Sprintf("(ival %s)", a[0].T.S), "Int"}
+		gh := x.heapGet(st, "GH_hashed", "(Array Int String)")
+		st.heap["GH_hashed"] = Store(gh, ref, mk("String", "str.++", Select(gh, ref), x.bytesToString(st, a[1].T)))
+		x.funcsUsed["lib:hash.Hash.Write absorbs exactly the bytes given and never fails (documented); hash objects created by the verified package are not written to by foreign code"] = true
+		return Val{Tup: []Val{{T: sliceLen(a[1].T), Typ: intT}, {T: NilIface, Typ: errT}}}, true
+	}
+	libTable["github.com/opencontainers/go-digest.NewDigest"] = func(x *Exec, fr *Frame, st *State, cc *ssa.CallCommon, a []Val) (Val, bool) {
+		if x.te.StrSort != "String" {
+			return Val{}, false
+		}
+		ref := Term{fmt.Sprintf("(ival %s)", a[1].T.S), "Int"}
+		gh := x.heapGet(st, "GH_hashed", "(Array Int String)")
+		x.funcsUsed["lib:go-digest NewDigest(alg, h) is digestOf(alg, bytes written to h), the same function FromBytes computes for sha256"] = true
+		return x.digestOf(st, a[0].T, Select(gh, ref), cc.Signature().Results().At(0).Type()), true
 	}
 	libTable["crypto/rand.Read"] = func(x *Exec, fr *Frame, st *State, cc *ssa.CallCommon, a []Val) (Val, bool) {
 		x.te.SortOf(cc.Args[0].Type())
